@@ -166,6 +166,10 @@ enum Tok {
     UntrustedTsa,
     Sha1Imprint,
     SigningTimeAttrDiffers,
+    /// tag of the `values` SET of the signed messageDigest attribute changed (0x31 -> 0x30)
+    SignedAttrSetTagFlip,
+    /// length octet of INTEGER s inside the ECDSA-Sig-Value changed (r and s themselves untouched)
+    EcdsaSigDerLengthFlip,
     /// one bit flipped at a seeded-random position of a right token; region 0 = CMS signature value,
     /// 1 = TSTInfo, 2 = signed messageDigest attribute
     RandFlip { region: u8, r: u32, cli: bool },
@@ -201,6 +205,8 @@ impl Tok {
             UntrustedTsa,
             Sha1Imprint,
             SigningTimeAttrDiffers,
+            SignedAttrSetTagFlip,
+            EcdsaSigDerLengthFlip,
         ]
     }
     fn name(&self) -> String {
@@ -229,6 +235,8 @@ impl Tok {
             UntrustedTsa => "untrusted-tsa".into(),
             Sha1Imprint => "right-sha1".into(),
             SigningTimeAttrDiffers => "right-signingtime-attr-differs".into(),
+            SignedAttrSetTagFlip => "signed-attr-values-set-tag-changed".into(),
+            EcdsaSigDerLengthFlip => "ecdsa-sig-der-length-octet-changed".into(),
             RandFlip { region, cli, .. } => format!(
                 "random-bit-flip:{}{}",
                 ["cms-signature", "tstinfo", "signed-message-digest-attr"][*region as usize % 3],
@@ -290,12 +298,15 @@ fn change_gentime_digit(buf: &mut [u8]) -> Result<(), String> {
 /// Flips one bit inside the named region of a token / response (the region is found structurally).
 fn rand_flip(buf: &mut [u8], region: u8, r: u32) -> Result<(), String> {
     let (start, len) = match region % 3 {
-        0 => (buf.len().saturating_sub(48), 48.min(buf.len())),
+        // value bytes of the signature only (the tail of `s` / of the RSA block): DER framing bytes of an
+        // ECDSA-Sig-Value are a separate, directed class (EcdsaSigDerLengthFlip)
+        0 => (buf.len().saturating_sub(30), 30.min(buf.len())),
         1 => pki_tsa::locate_tst_info(buf).ok_or("TSTInfo not found")?,
         _ => {
             let oid = pki::der::oid(pki_tsa::OID_ATTR_MESSAGE_DIGEST);
             let pos = buf.windows(oid.len()).position(|w| w == oid.as_slice()).ok_or("messageDigest attribute not found")?;
-            (pos + oid.len(), 36)
+            // SET header length, OCTET STRING header, digest (the SET tag itself is the directed class SignedAttrSetTagFlip)
+            (pos + oid.len() + 1, 35)
         }
     };
     if len == 0 || start + len > buf.len() {
@@ -419,6 +430,25 @@ fn make(p: &Pki, tok: Tok, message: &[u8], other_version_message: &[u8]) -> Resu
             rand_flip(&mut resp, region, r)?;
             rand_flip(&mut token, region, r)?;
             t.cms_ok = false;
+        }
+        SignedAttrSetTagFlip => {
+            for b in [&mut resp, &mut token] {
+                let oid = pki::der::oid(pki_tsa::OID_ATTR_MESSAGE_DIGEST);
+                let pos = b.windows(oid.len()).position(|w| w == oid.as_slice()).ok_or("messageDigest attribute not found")?;
+                if b[pos + oid.len()] != 0x31 {
+                    return Err("SET tag not where expected".into());
+                }
+                b[pos + oid.len()] = 0x30;
+            }
+            t.cms_ok = false;
+        }
+        EcdsaSigDerLengthFlip => {
+            for b in [&mut resp, &mut token] {
+                let n = b.len();
+                let ls = [32usize, 33].into_iter().find(|ls| b[n - ls - 2] == 0x02 && b[n - ls - 1] as usize == *ls).ok_or("INTEGER s header not found")?;
+                b[n - ls - 1] ^= 0x10;
+            }
+            t.unjudged = Some("r and s are untouched and still verify; only the DER framing of the ECDSA-Sig-Value is corrupt (openssl rejects it): encoding leniency, not decided by the statement");
         }
         TsaNoEku => t.tsa_eku_ok = false,
         TsaExpiredAtGen | TsaNotYetAtGen => t.tsa_valid_at_gen = false,
@@ -761,17 +791,6 @@ fn main() {
     }
     let debug = std::env::var("C36_DEBUG").is_ok();
     let p = Arc::new(build_pki());
-    if std::env::var("C36_PROBE").is_ok() {
-        let msg = b"hello world message".to_vec();
-        for bit in 0..8u32 {
-            let made = make(&p, Tok::RandFlip { region: 2, r: bit << 16, cli: false }, &msg, &msg).unwrap();
-            let mut log = c2pa::status_tracker::StatusTracker::default();
-            let ctp = c2pa::crypto::cose::CertificateTrustPolicy::passthrough();
-            let r = c2pa::crypto::time_stamp::verify_time_stamp(&made.resp, &msg, &ctp, &mut log, false);
-            println!("bit {bit}: {:?} log={:?}", r.map(|_| ()), log.logged_items().iter().map(|i| (i.validation_status.clone(), i.description.clone())).collect::<Vec<_>>());
-        }
-        return;
-    }
     let asset = assets::tiny_assets().into_iter().find(|a| a.format == "png").expect("tiny png");
     let jpg = assets::tiny_assets().into_iter().find(|a| a.format == "jpg" || a.format == "jpeg");
     let all_assets = assets::tiny_assets();
